@@ -76,7 +76,9 @@ func fnExec(ctx *cmdContext, args map[string]any) (output respValue, err error) 
 	// database locks while this one is held; the global lock has to come first
 	for _, cc := range *ctx.cs.cmdQueue {
 		if cc.cmdToken == "flushall" {
+			simBeforeLock(&multiDataStoreLock, "multiDataStoreLock")
 			multiDataStoreLock.Lock()
+			defer simAfterUnlock(&multiDataStoreLock, "multiDataStoreLock")
 			defer multiDataStoreLock.Unlock()
 			break
 		}
